@@ -1426,6 +1426,61 @@ fn gen(rng: &mut Rng, n: usize) -> Vec<Case> {
     out
 }
 
+/// Arrow B: for packs that came from git (every requested entry carries the object id git's own
+/// index reported), let `git hash-object` confirm that the bytes the patch-delta oracle assigns to the
+/// entry hash to that id, and print kind and bytes; the Coq side prints Spec.object_of.
+fn git_oracle(c: &Case) -> String {
+    if f_str(c, 0) != b"dec" {
+        return "-".into();
+    }
+    let Some((_cfgs, reqs, entries)) = parse_dec(c) else {
+        return "-".into();
+    };
+    if reqs.is_empty() || !reqs.iter().all(|i| entries[*i].id.len() == 20) {
+        return "-".into();
+    }
+    let objs = oracle_objects(&entries);
+    let dir = std::env::temp_dir().join(format!("gixv-c08-git-{}-{}", std::process::id(), COUNTER.fetch_add(1, Ordering::SeqCst)));
+    let _ = std::fs::remove_dir_all(&dir);
+    std::fs::create_dir_all(dir.join("objects")).unwrap();
+    std::fs::create_dir_all(dir.join("refs")).unwrap();
+    std::fs::write(dir.join("HEAD"), "ref: refs/heads/main\n").unwrap();
+    let mut distinct: Vec<usize> = reqs.clone();
+    distinct.sort_unstable();
+    distinct.dedup();
+    let mut ok = true;
+    for kind in 1u8..=4 {
+        let of_kind: Vec<usize> = distinct.iter().copied().filter(|i| matches!(&objs[*i], Some((k, _)) if *k == kind)).collect();
+        if of_kind.is_empty() {
+            continue;
+        }
+        let mut paths = String::new();
+        for i in &of_kind {
+            let path = dir.join(format!("obj{i}"));
+            std::fs::write(&path, &objs[*i].as_ref().unwrap().1).unwrap();
+            paths.push_str(path.to_str().unwrap());
+            paths.push('\n');
+        }
+        let ty = ["", "commit", "tree", "blob", "tag"][kind as usize];
+        let out = git(&dir, &["hash-object", "-t", ty, "--stdin-paths"], paths.as_bytes());
+        let ids: Vec<Vec<u8>> = String::from_utf8_lossy(&out).lines().map(unhex).collect();
+        if ids.len() != of_kind.len() || ids.iter().zip(&of_kind).any(|(id, i)| *id != entries[*i].id) {
+            ok = false;
+        }
+    }
+    let _ = std::fs::remove_dir_all(&dir);
+    if !ok || distinct.iter().any(|i| objs[*i].is_none()) {
+        return "git-disagrees-with-oracle".into();
+    }
+    reqs.iter()
+        .map(|i| {
+            let (k, d) = objs[*i].as_ref().unwrap();
+            format!("{}:{}", k, digest(d))
+        })
+        .collect::<Vec<_>>()
+        .join(",")
+}
+
 fn main() {
-    main_with(Harness { gen, imp, prop, git: None, deadline: std::time::Duration::from_secs(120) });
+    main_with(Harness { gen, imp, prop, git: Some(git_oracle), deadline: std::time::Duration::from_secs(120) });
 }
